@@ -20,7 +20,7 @@ MANIFEST = {
 
 
 def check(run):
-    broken, findings, results = il.standard(run, "C16", "c16", extra_subs=("sock", "race"))
+    broken, findings, results = il.standard(run, "C16", "c16", extra_subs=("sock", "race", "wire"))
     run.coverage["rule"] = (
         "timing: histories with clock ticks on a real handler with timeout 500 ms (tick unit 50 ms); between two long ticks (30 units) the "
         "short ticks add up to <= 3 units so every observation is made <= 0.3 or >= 3 timeouts after a timer was armed; exh-N2-P1-d3(+conn): "
@@ -32,7 +32,12 @@ def check(run):
         "than 1.2 where it has more) is re-run, at most twice, and left out of the correspondence if still off schedule. reuse-timeout: the "
         "id of a timed-out request is sent again before its late final frame. flood-conn: more EVENT frames than the events queue holds. "
         "Every call into the library runs under a watchdog (2 s of normally scheduled waiting): verdicts receiver-blocked / send-blocked / "
-        "close-hangs name the history and the step. Accept sessions (sock, exercised): a server with MaxConnections 1 or 2 (1..3 in thorough) "
+        "close-hangs name the history and the step. In every socket session four more receivers are blocked when the close is injected - a "
+        "goroutine ranging over EventChannel(), one in ReceiveEvent(), one looping on CqlServerConnection.Receive(), one ranging over "
+        "InFlightRequest.Incoming() - and each must have returned 3 s after the close (ReadTimeout is 5 s, so a receiver released only by its "
+        "timeout is flagged), on every close route (client, server connection, server, context, peer reset): verdict receiver-blocked with "
+        "route and receiver kind. From the wire sessions: after a fatal ERROR response (SERVER_ERROR, PROTOCOL_ERROR, AUTH_ERROR) the client "
+        "connection closes and the other outstanding requests are completed with an error within 3 s. Accept sessions (sock, exercised): a server with MaxConnections 1 or 2 (1..3 in thorough) "
         "receives more successive client connections than that (2m+2) through Bind / BindAndInit / Connect+Accept, AcceptAny never called (and a "
         "variant with a goroutine draining it); 0..m clients stay open, every other one is closed before the next connects, from the client "
         "side (the server connection's reader is then the first closer) or from the server connection; with m open one more must be refused, "
